@@ -288,6 +288,53 @@ pub fn ref_bicg(a: &D, b: &[f64], x0: &[f64], tol: f64, max: usize) -> Option<us
     None
 }
 
+/// textbook BiCG as `ref_bicg`, also reporting how close the run came to a breakdown: the largest
+/// ||r~|| ||r|| / |r~.r| (Lanczos) and ||p~|| ||A p|| / |p~.A p| (pivot) seen over the iterations
+pub fn ref_bicg_amp(a: &D, b: &[f64], x0: &[f64], tol: f64, max: usize) -> Option<(usize, f64, f64)> {
+    let nb = { let t = norm2(b); if t == 0.0 { 1.0 } else { t } };
+    let mut x = x0.to_vec();
+    let ax = matvec(a, &x);
+    let mut r: Vec<f64> = b.iter().zip(&ax).map(|(p, q)| p - q).collect();
+    if norm2(&r) <= tol * nb {
+        return Some((0, 1.0, 1.0));
+    }
+    let mut rt = r.clone();
+    let mut p = r.clone();
+    let mut pt = rt.clone();
+    let mut rho = dot(&rt, &r);
+    let (mut lan, mut piv) = (1.0f64, 1.0f64);
+    for k in 1..=max {
+        let q = matvec(a, &p);
+        let qt = tmatvec(a, &pt);
+        let d = dot(&pt, &q);
+        piv = piv.max(norm2(&pt) * norm2(&q) / d.abs());
+        let alpha = rho / d;
+        if !alpha.is_finite() {
+            return None;
+        }
+        for i in 0..x.len() {
+            x[i] += alpha * p[i];
+            r[i] -= alpha * q[i];
+            rt[i] -= alpha * qt[i];
+        }
+        if norm2(&r) <= tol * nb {
+            return Some((k, lan, piv));
+        }
+        let rho_new = dot(&rt, &r);
+        lan = lan.max(norm2(&rt) * norm2(&r) / rho_new.abs());
+        let beta = rho_new / rho;
+        if !beta.is_finite() {
+            return None;
+        }
+        for i in 0..x.len() {
+            p[i] = r[i] + beta * p[i];
+            pt[i] = rt[i] + beta * pt[i];
+        }
+        rho = rho_new;
+    }
+    None
+}
+
 pub fn ref_bicgstab(a: &D, b: &[f64], x0: &[f64], tol: f64, max: usize) -> Option<usize> {
     let nb = { let t = norm2(b); if t == 0.0 { 1.0 } else { t } };
     let n = b.len();
